@@ -81,9 +81,9 @@ type pathState struct {
 	trace   []TraceItem
 	done    string // "", "return", "panic"
 	depth   int
-	rets    []retVal // values returned by the most recently inlined callee (constant-propagated where known)
-	sel     map[string]*selSet // subject expression -> the constants it can still equal on this path (value dispatch)
-	retStmt *ast.ReturnStmt    // the return statement of the interpreted function that ended this path
+	rets    []retVal             // values returned by the most recently inlined callee (constant-propagated where known)
+	sel     map[string]*selSet   // subject expression -> the constants it can still equal on this path (value dispatch)
+	retStmt *ast.ReturnStmt      // the return statement of the interpreted function that ended this path
 	aliasE  map[string]aliasExpr // boolean locals that name a condition: the condition itself (valid while alias[name] == text)
 }
 
@@ -230,16 +230,17 @@ func (s *pathState) clone() *pathState {
 }
 
 type tracer struct {
-	p        *Program
-	prims    map[string]string
-	inline   map[string]bool        // callees to inline
-	noAuto   func(name string) bool // framer methods that are deliberately not followed
-	trackBuf string                 // byte buffer whose appends / stores are recorded ("f.buf"), "" = off
-	trackVar string                 // struct variable whose field assignments are recorded ("head"), "" = off
-	unsup    []string
-	maxPaths int
-	npaths   int
-	verField string // "proto": f.proto / header version selector suffix
+	p          *Program
+	prims      map[string]string
+	inline     map[string]bool        // callees to inline
+	noAuto     func(name string) bool // framer methods that are deliberately not followed
+	trackBuf   string                 // byte buffer whose appends / stores are recorded ("f.buf"), "" = off
+	trackVar   string                 // struct variable whose field assignments are recorded ("head"), "" = off
+	trackField string                 // field name whose assignments (on any variable) are recorded, "" = off
+	unsup      []string
+	maxPaths   int
+	npaths     int
+	verField   string // "proto": f.proto / header version selector suffix
 }
 
 // autoInline: a framer method with a body that is neither a primitive nor explicitly listed is a helper the
@@ -1479,6 +1480,11 @@ func (tr *tracer) recordBufOps(fi *FuncInfo, as *ast.AssignStmt, st *pathState) 
 				st.trace = append(st.trace, TraceItem{Prim: "field", Arg: sel.Sel.Name, Expr: rhs, Pos: as.Pos()})
 			}
 		}
+		if tr.trackField != "" {
+			if sel, ok := ast.Unparen(l).(*ast.SelectorExpr); ok && sel.Sel.Name == tr.trackField {
+				st.trace = append(st.trace, TraceItem{Prim: "field", Arg: sel.Sel.Name, Expr: rhs, Pos: as.Pos()})
+			}
+		}
 	}
 }
 
@@ -1530,4 +1536,19 @@ func isFieldPath(e ast.Expr) bool {
 		return isFieldPath(x.X)
 	}
 	return false
+}
+
+// trueLits: the string literals L for which the path assumed `fn(<anything>, "L")` (e.g. strings.HasSuffix) true.
+func trueLits(st *pathState, fn string) []string {
+	var out []string
+	for k, v := range st.assume {
+		if !v || !strings.HasPrefix(k, fn+"(") || !strings.HasSuffix(k, "\")") {
+			continue
+		}
+		if i := strings.LastIndex(k, ", \""); i > 0 {
+			out = append(out, k[i+3:len(k)-2])
+		}
+	}
+	sort.Strings(out)
+	return out
 }
